@@ -10,16 +10,18 @@ ref_idx cascade of `_convert_cycle_timestamps` (probed through its anchoring beh
 grid (freq a power of two, host times multiples of 1/16 us below 2^36, counters below 2^36).
 
 Oracle (from the statement, never from the model), on every real execution:
-* device slice whose name ends in ' DmaI' / ' Cmpt Prep' / ' Cmpt Exec' / ' DmaO' (exactly one phase keyword, at the
-  end) or contains no phase keyword: dur == (TSb-TSa)/f for the pair of the statement's table, finite, > 0 when
+* device slice whose phase is decided by the FLEX dialect's own rules (types.py: unanchored ' DmaI' / ' DmaO' anywhere in
+  the name — e.g. 'Host DMA Wdone DmaI [to rank 0]' —, anchored ' Cmpt Prep$' / ' Cmpt Exec$'; exactly one rule matches
+  and no keyword of another phase occurs) or whose name contains no phase keyword: dur == (TSb-TSa)/f for the pair of the statement's table, finite, > 0 when
   TSa < TSb; ts+dur == host-recorded end; with k*f: dur' == dur/k, same end, start moved by dur - dur/k;
 * host-only slices (no TS1) and non-X events: ts and dur untouched;
 * a raise on a slice whose counters are non-decreasing and whose projected start is >= 0 is a violation.
 Exact on the grid; a second 'realistic double' stream (ts ~ 2e12 us with 3 decimals, 560/1000/899.577 MHz) and the
 end-to-end stream (real Acelyzer API, single rank, `--freq f` vs `--freq k*f`, exported JSON) use 2e-3 us (the
 resolution of a double near 2e12 us is 2.4e-4 us) and are never compared with the model.
-Names with a phase keyword in a non-suffix position or without the leading blank are the documented excluded
-branch (`C06.end_not_preserved_noncanonical`): model comparison only.
+Names that match several rules, carry a keyword of another phase as substring noise, carry a keyword that matches no
+rule ('a Cmpt Exec b', 'xDmaI'), or end in a blank-less 'xCmpt Prep' / 'kCmpt Exec' (the reported excluded branch,
+`C06.end_not_preserved_noncanonical`) get model comparison only.
 """
 from __future__ import annotations
 
@@ -44,6 +46,7 @@ THEOREMS = [
     "AiuVerif.C06.phase_tables_agree_other",
     "AiuVerif.C06.statement_canonical",
     "AiuVerif.C06.statement_other",
+    "AiuVerif.C06.statement_midname_dma",
     "AiuVerif.C06.asserts_hold",
     "AiuVerif.C06.end_not_preserved_noncanonical",
 ]
@@ -172,13 +175,41 @@ def real_tables(name):
 # ---------------------------------------------------------------------------------------------
 
 def stmt_pair(name):
-    """counter pair (0-based) of the statement's table; None for names outside the five unambiguous classes"""
-    hits = [i for i, k in enumerate(KW_NB) if k in name]
+    """counter pair (0-based) of the statement's table, the phase being decided by the FLEX dialect's own rules
+    (types.py `_FLEX_DIALECT`): DmaI / DmaO by the UNANCHORED regexes ' DmaI' / ' DmaO' (anywhere in the name),
+    Cmpt Prep / Cmpt Exec by the anchored 'Cmpt Prep$' / 'Cmpt Exec$'; a name without any phase keyword is 'any other
+    device event'.  In the domain: exactly one rule matches and no keyword of another phase occurs anywhere.
+    None (model comparison only) for: several matches, a keyword of another phase as substring noise, a keyword
+    that matches no rule ('a Cmpt Exec b', 'xDmaI'), and the blank-less suffixes 'xCmpt Prep' / 'kCmpt Exec' — the
+    reported excluded branch (`C06.end_not_preserved_noncanonical`)."""
+    hits = []
+    if " DmaI" in name:
+        hits.append(0)
+    if name.endswith("Cmpt Prep"):
+        hits.append(1)
+    if name.endswith("Cmpt Exec"):
+        hits.append(2)
+    if " DmaO" in name:
+        hits.append(3)
+    present = [i for i, k in enumerate(KW_NB) if k in name]
     if not hits:
-        return (0, 4)
-    if len(hits) == 1 and name.endswith(KW[hits[0]]) and name.count(KW_NB[hits[0]]) == 1:
-        return (hits[0], hits[0] + 1)
-    return None
+        return (0, 4) if not present else None
+    if len(hits) != 1 or present != hits:
+        return None
+    i = hits[0]
+    if i in (1, 2) and not name.endswith(KW[i]):
+        return None
+    return (i, i + 1)
+
+
+def name_class(name):
+    p = stmt_pair(name)
+    if p is None:
+        return "noncanonical"
+    if p == (0, 4):
+        return "other"
+    i = p[0]
+    return "suffix" if name.endswith(KW[i]) else "midname"
 
 
 def _close(a, b, tol):
@@ -252,7 +283,17 @@ def oracle(case, real_f, real_kf=None, tol=0):
 # generators
 # ---------------------------------------------------------------------------------------------
 
-GRID_NAMES = ["k DmaI", "k Cmpt Prep", "k Cmpt Exec", "k DmaO", "kernel_7", "SenRdmaSend_12 [sync=AllReduce_1_s0_r1_0] DmaO"]
+GRID_NAMES = ["k DmaI", "k Cmpt Prep", "k Cmpt Exec", "k DmaO", "kernel_7", "SenRdmaSend_12 [sync=AllReduce_1_s0_r1_0] DmaO",
+              "Host DMA Wdone DmaI [to rank 0]", "Host DMA DmaO [from rank 1] x DmaO tail"]
+TAILS = ["", "", "", " [to rank 0]", " x", "_7", " DmaX"]
+
+
+def rand_name(rng):
+    kw = rng.choice(KW + [""])
+    tail = rng.choice(TAILS) if kw in (" DmaI", " DmaO") else ""
+    if tail and kw and rng.random() < 0.15:
+        tail += kw           # the same keyword twice
+    return rng.choice(PREFIXES) + kw + tail
 
 
 def grid_cases(ctx: Ctx):
@@ -294,7 +335,7 @@ def random_case(ctx: Ctx):
         r = rng.random()
         ts = rng.randrange(1 << 26, 1 << 36) / 16
         if r < 0.7:
-            name = rng.choice(PREFIXES) + rng.choice(KW + [""])
+            name = rand_name(rng)
             c = rand_counters(rng)
             evs.append({"uid": uid, "ph": "X", "name": name, "ts": ts, "dur": rng.randrange(0, 1 << 16) / 16, "tsx": c})
         elif r < 0.9:
@@ -340,7 +381,7 @@ def realistic_case(ctx: Ctx):
     f = rng.choice(["560", "1000", "899577/1000"])
     evs = []
     for uid in range(1, rng.randint(2, 6)):
-        name = rng.choice(PREFIXES) + rng.choice(KW + [""])
+        name = rand_name(rng)
         c = rand_counters(rng, lo=1 << 20)
         pair = stmt_pair(name)
         if pair is None:
@@ -379,7 +420,8 @@ def e2e_case(ctx: Ctx):
         ts5 = [t]
         for g in gaps:
             ts5.append(ts5[-1] + g)
-        slices.append({"ptype": ptype, "ts5": ts5, "prefix": rng.choice(["mm_3", "x", "SenRdmaSend_5 [sync=a_s0_r1_0]"])})
+        slices.append({"ptype": ptype, "ts5": ts5, "prefix": rng.choice(["mm_3", "x", "SenRdmaSend_5 [sync=a_s0_r1_0]"]),
+                       "tail": rng.choice(["", "", " [to rank 0]", " x"]) if ptype in (0, 3) else ""})
         t = ts5[4] + rng.randint(1, 50)
     return {"tag": "e2e", "freq": f, "k": rng.choice(["2", "4"]), "host_epoch": float(rng.randrange(1 << 20, 1 << 30)),
             "dev_epoch": rng.randrange(0, 1 << 31), "slices": slices,
@@ -391,7 +433,7 @@ def run_e2e(case):
     f = case["freq"]
     rk = scenario.Rank(0, float(f), case["host_epoch"], case["dev_epoch"])
     for i, s in enumerate(case["slices"]):
-        name = s["prefix"] + (KW[s["ptype"]] if s["ptype"] < 4 else "")
+        name = s["prefix"] + (KW[s["ptype"]] if s["ptype"] < 4 else "") + s.get("tail", "")
         rk.dev_event(name, 100 + s["ptype"], s["ts5"])
     for a, b in case["host"]:
         rk.host_event("AIU Roundtrip", 77, a, b)
@@ -515,6 +557,7 @@ def classify(case, r1):
         if e["ph"] == "X" and e["tsx"] is not None:
             p = stmt_pair(e["name"])
             labels.append("pair:" + ("noncanonical" if p is None else f"TS{p[0]+1}-TS{p[1]+1}"))
+            labels.append("name:" + name_class(e["name"]))
             if o["ts"] != e["ts"] or o["dur"] != e["dur"]:
                 changed = True
             if p is not None and len(e["tsx"]) == 5 and e["tsx"][p[0]] == e["tsx"][p[1]]:
@@ -553,7 +596,7 @@ def run(ctx: Ctx):
             ctx.obligation_broken("pipeline shape: " + pb, pb)
     if ctx.search_mode or not ctx.driver or not ctx.driver.ok:
         return
-    names = sorted(set(GRID_NAMES + ODD_NAMES + [p + k for p in PREFIXES for k in KW + [""]]))
+    names = sorted(set(GRID_NAMES + ODD_NAMES + [p + k + t for p in PREFIXES for k in KW + [""] for t in ("", " [to rank 0]")]))
     lines = []
     for c in cases:
         f = Fraction(c["freq"])
